@@ -92,6 +92,11 @@ NetScaleFails ==
     ELSE (IF SeqClose(Ev.b0, Ev.s0, 8) /\ (Ev.model # 2 \/ (SeqClose(Ev.b1, Ev.s1, 16) /\ SeqClose(Ev.b2, Ev.s2, 16))) THEN {}
           ELSE {F("C17", <<"solution changed beyond tolerance when all weights were scaled", Ev.k>>, "net-scale")})
 NetScale == Is("NetScale") /\ fails' = NetScaleFails /\ l' = l + 1
+\* penalty strengths are honoured also for a cell exactly on its target (positions x 128; the targets differ by 1/64 = 2 units)
+NetTie == /\ Is("NetTie")
+          /\ fails' = (IF SeqClose(Ev.yEq, Ev.yNear, 24) THEN {}
+                       ELSE {F("C17", <<"a cell exactly on its penalty target is not pulled like one next to it", Ev.yEq, Ev.yNear>>, "net-penalty-tie")})
+          /\ l' = l + 1
 
 (* C02 / C04 / C05: one swap or insert applied to a real DetailedPlacement built in a state of the DetailedRows model *)
 StOf(len, cs) == [len |-> len, repaired |-> TRUE, w |-> [c \in 1..Len(cs) |-> cs[c].w], pol |-> [c \in 1..Len(cs) |-> cs[c].pol],
@@ -121,7 +126,7 @@ BadFate == /\ (Is("Abort") \/ Is("Sanitizer") \/ Is("Timeout"))
                           <<Ev.e, Ev.stderr>>, Ev.scen \o "-fate")}
            /\ l' = l + 1
 
-Next == NetBuild \/ DetRes \/ RowHist \/ Transport \/ T1d \/ Hier \/ NetSolve \/ NetScale \/ AlgoBegin \/ BadFate
+Next == NetTie \/ NetBuild \/ DetRes \/ RowHist \/ Transport \/ T1d \/ Hier \/ NetSolve \/ NetScale \/ AlgoBegin \/ BadFate
 Spec == Init /\ [][Next]_<<l, fails>>
 
 RECURSIVE SeqOfSet(_)
